@@ -1,12 +1,14 @@
 package scen
 
 import (
+	"bytes"
 	"crypto/sha256"
 	"fmt"
 	"math/big"
 	"strings"
 	"time"
 
+	"github.com/RoaringBitmap/roaring"
 	"github.com/idena-network/idena-go/blockchain/attachments"
 	"github.com/idena-network/idena-go/blockchain/fee"
 	"github.com/idena-network/idena-go/blockchain/types"
@@ -608,4 +610,84 @@ func (s *Scn) LongAnswersTx(view *simnode.Node, id *Ident) *types.Transaction {
 		tx = s.sign(t, id)
 	})
 	return tx
+}
+
+// EvidenceTxOf builds an EvidenceTx of id with the given payload (whatever its sender likes: the validator does not
+// look at it), valid on view's state, or nil.
+func (s *Scn) EvidenceTxOf(view *simnode.Node, id *Ident, payload []byte) *types.Transaction {
+	var tx *types.Transaction
+	view.Do(func() {
+		st := view.App.State
+		ident := st.GetIdentity(id.Addr)
+		if !state.IsCeremonyCandidate(ident) || ident.HasValidationTx(types.EvidenceTx) || st.ValidationPeriod() < state.LongSessionPeriod {
+			return
+		}
+		nonce, ep := s.NextNonce(view, id)
+		t := &types.Transaction{AccountNonce: nonce, Epoch: ep, Type: types.EvidenceTx, Payload: payload}
+		t.MaxFee = new(big.Int).Mul(fee.CalculateFee(view.App.ValidatorsCache.NetworkSize(), FeeRate(view), t), big.NewInt(2))
+		tx = s.sign(t, id)
+	})
+	return tx
+}
+
+// HostileEvidencePayload draws an evidence bitmap as a participant who does not run the reference client may send it.
+func (s *Scn) HostileEvidencePayload() ([]byte, string) {
+	t := s.R.Tape
+	le := func(v uint32) []byte { return []byte{byte(v), byte(v >> 8), byte(v >> 16), byte(v >> 24)} }
+	switch t.Choose("evidence.payload", 13) {
+	case 12:
+		// a well-formed bitmap of a few kilobytes that names 2^26 "candidates" (run-length containers)
+		rb := roaring.New()
+		rb.AddRange(0, 1<<26)
+		rb.RunOptimize()
+		buf := bytes.NewBuffer([]byte{1})
+		rb.WriteTo(buf)
+		return buf.Bytes(), "roaring-runs-naming-2^26-candidates"
+	case 0:
+		return []byte{}, "empty"
+	case 1:
+		return []byte{1}, "roaring-format-without-body"
+	case 2:
+		return []byte{2}, "bigint-format-without-body"
+	case 3:
+		return []byte{0}, "unknown-format-byte"
+	case 4:
+		// roaring cookie without run containers (12346), container count 2^16
+		return append(append([]byte{1}, le(12346)...), le(1<<16)...), "roaring-header-claims-65536-containers"
+	case 5:
+		return append(append([]byte{1}, le(12346)...), le(0xffffffff)...), "roaring-header-claims-2^32-containers"
+	case 6:
+		// cookie with run containers (12347), size in the upper half
+		return append([]byte{1}, le(12347|0xffff<<16)...), "roaring-run-header-claims-65536-containers"
+	case 7:
+		// one array container of key 0 with cardinality 4 but no data
+		b := append([]byte{1}, le(12346)...)
+		b = append(b, le(1)...)
+		b = append(b, 0, 0, 3, 0)
+		b = append(b, le(16)...)
+		return b, "roaring-container-without-data"
+	case 8:
+		// well-formed roaring bitmap naming candidates far outside the list
+		b := append([]byte{1}, le(12346)...)
+		b = append(b, le(1)...)
+		b = append(b, 0xff, 0xff, 1, 0)
+		b = append(b, le(16)...)
+		b = append(b, 0xfe, 0xff, 0xff, 0xff)
+		return b, "roaring-names-candidates-outside-the-list"
+	case 9:
+		b := make([]byte, 1+t.Choose("evidence.len", 48))
+		for i := range b {
+			b[i] = byte(t.Choose("evidence.byte", 256))
+		}
+		b[0] = 1
+		return b, "roaring-format-random-body"
+	case 10:
+		b := make([]byte, 1+t.Choose("evidence.len", 48))
+		for i := range b {
+			b[i] = byte(t.Choose("evidence.byte", 256))
+		}
+		return b, "random-bytes"
+	default:
+		return []byte{2, 0xff, 0xff, 0xff, 0xff, 0xff, 0xff, 0xff, 0xff, 0xff}, "bigint-format-all-ones"
+	}
 }
